@@ -361,6 +361,11 @@ def build_bins(wd):
     return base, extra
 
 
+# action coverage (-coverage 1) is taken on the cross-type configuration: every action of Codec.tla is enabled there
+# (Aux = TRUE) and it is 3x smaller than CodecMC_fix, which was the longest TLC run of the quick tier with coverage on
+COV_CFG = "CodecMC_xreg"
+
+
 def model_check(wd, quick):
     """Codec.tla exhaustively under the three switch settings (one handle type), and over the cross-type
     handle pool: as the code is (seen set and table keyed by (type, hash)) with registered originals (xreg)
@@ -369,7 +374,7 @@ def model_check(wd, quick):
     xfix = "CodecMC_xfix" if quick else "CodecMC_xfix3"
 
     def one(cfg):
-        return cfg, vp.tlc("CodecMC", cfg=cfg + ".cfg", workers=2, timeout=900, xmx="3g", coverage=(cfg == "CodecMC_fix"),
+        return cfg, vp.tlc("CodecMC", cfg=cfg + ".cfg", workers=2, timeout=900, xmx="3g", coverage=(cfg == COV_CFG),
                            metadir=os.path.join(wd, "meta", cfg), check_ok=True)
     with cf.ThreadPoolExecutor(max_workers=4) as ex:
         for cfg, r in ex.map(one, ["CodecMC_fix", xfix, "CodecMC_xreg", "CodecMC_reg", "CodecMC_asis", "CodecMC_xmut", "CodecMC_xmutsc"]):
@@ -385,7 +390,7 @@ def model_check(wd, quick):
         raise vp.ToolError("CodecMC_xmut: the model with SeenByHashOnly must violate FIFO:\n" + res["CodecMC_xmut"]["out"][-3000:])
     if "SelfContained" not in res["CodecMC_xmutsc"]["invariant_violated"]:
         raise vp.ToolError("CodecMC_xmutsc: the model with SeenByHashOnly must violate SelfContained:\n" + res["CodecMC_xmutsc"]["out"][-3000:])
-    cov = vp.tlc_coverage(res["CodecMC_fix"]["out"])
+    cov = vp.tlc_coverage(res[COV_CFG]["out"])
     never = [a for a in ("Encode", "Decode", "Restart", "DropOrig", "DropDec", "Emit") if cov.get(a, (0, 0))[1] == 0]
     if never:
         raise vp.ToolError(f"Codec.tla actions never taken: {never}")
@@ -399,6 +404,7 @@ def model_check(wd, quick):
                                                "result": "FIFO violated (xmut: encode (String a, str a), drop originals / fresh interner, decode fails); "
                                                          "SelfContained violated (xmutsc: a reference without an inline copy of its type)"},
         "action_coverage": {a: list(v) for a, v in cov.items()},
+        "action_coverage_cfg": COV_CFG,
     }
 
 
